@@ -21,7 +21,8 @@ ASSUMPTIONS = ["assignment means setattr / augmented assignment through the obje
                "(object.__setattr__ and __dict__ poking bypass any Python class and are out of scope)"]
 GATES = ["attempts", "existing_public", "existing_private", "property_names", "fresh_names", "augmented",
          "unknown_stub_messages", "msm_messages", "string_messages", "oversize_messages", "threaded_cases",
-         "threaded_switches", "via_constructor", "via_static_parser", "via_reader"]
+         "threaded_switches", "via_constructor", "via_static_parser", "via_reader", "via_socket_reader",
+         "failed_constructions_between"]
 
 FRESH = ("foo", "DF9999", "newattr", "x", "Payload", "IDF999", "NSatellites", "identity_", "a_01", "DF002_01")
 VALUES = (0, 1, -1, 3.5, "x", "", None, b"\x00", [], {}, True, 2**70)
@@ -71,14 +72,23 @@ def run_case(ctx, payload, labelmsm, seedtag, nattempts, tag):
             from vf import refcrc
 
             m = RTCMReader.parse(refcrc.frame(payload), labelmsm=labelmsm)
-        else:  # message obtained from a stream reader
+        else:  # message obtained from a stream reader (file-like or real-socket subclass)
             import io
 
             from pyrtcm import RTCMReader
 
-            from vf import refcrc
+            from vf import doubles, refcrc
 
-            m = next(iter(RTCMReader(io.BytesIO(refcrc.frame(payload)), labelmsm=labelmsm, quitonerror=2)))[1]
+            fr = refcrc.frame(payload)
+            if seedtag % 2:
+                sock = doubles.ScriptedSocket(fr, [max(1, len(fr) // 2), 3])
+                try:
+                    m = next(iter(RTCMReader(sock, labelmsm=labelmsm, quitonerror=2)))[1]
+                finally:
+                    sock.close()
+                ctx.hit("via_socket_reader")
+            else:
+                m = next(iter(RTCMReader(io.BytesIO(fr), labelmsm=labelmsm, quitonerror=2)))[1]
         ctx.hit(("via_constructor", "via_static_parser", "via_reader")[how])
     except Exception:
         ctx.hit("unparseable_skipped")
@@ -108,11 +118,24 @@ def run_case(ctx, payload, labelmsm, seedtag, nattempts, tag):
         for name in names:
             val = rng.choice(VALUES) if rng.random() < 0.8 else getattr(m, name, 0)
             tried.append(name)
+            if rng.random() < 0.15:  # a construction that FAILS in between must not unlock existing messages
+                for badp in (b"", None, payload[:3] if len(payload) > 4 else b"\x3e"):
+                    try:
+                        RTCMMessage(payload=badp)
+                    except Exception:
+                        pass
+                ctx.hit("failed_constructions_between")
             try:
                 if kind == "aug":
+                    import operator
+
+                    name = rng.choice((name, "payload", "_payload"))
                     cur = getattr(m, name)
                     ctx.hit("augmented")
-                    setattr(m, name, cur + cur if isinstance(cur, (int, float, str)) else cur)
+                    # what `msg.name += x` does: in-place add on the current value, then assignment
+                    inc = cur if isinstance(cur, (int, float, str)) else (b"\x00" if isinstance(cur, (bytes, bytearray)) else None)
+                    new_ = operator.iadd(cur, inc) if inc is not None else cur
+                    setattr(m, name, new_)
                 else:
                     setattr(m, name, val)
                 ctx.violation("assignment-accepted", f"{tag}: setattr(msg, {name!r}, {val!r}) returned normally "
